@@ -70,6 +70,10 @@ abbrev NoND (rank : Node → Nat) (e : Expr Node) : Prop := NDBelow rank 0 e
 
 variable {rank : Node → Nat}
 
+theorem mem_ite_single {α : Type} {c : Bool} {x e : α} (h : e ∈ (if c = true then [x] else [])) : c = true ∧ e = x := by
+  cases c <;> simp at h ⊢
+  exact h
+
 theorem noND_kidsOf (w : World) (f : Filtered) (child : Tuple → Option (Expr Node))
     (hc : ∀ t e, child t = some e → ∃ n, e = .node true n) : ∀ e ∈ kidsOf w f child, NoND rank e := by
   intro e he
@@ -138,20 +142,13 @@ theorem noND_publicLeaf (w : World) (o r : String) : NoND rank (publicLeaf w o r
 
 theorem noND_directExpr (w : World) (o r : String) (restrs : List Restr) : NoND rank (directExpr w o r restrs) := by
   unfold directExpr
-  simp only
   refine .or _ ?_
   intro e he
   rcases List.mem_append.mp he with h | h
   · rcases List.mem_append.mp h with h | h
-    · split at h
-      · simp only [List.mem_cons, List.not_mem_nil, or_false] at h; subst h; exact noND_directLeaf w o r
-      · cases h
-    · split at h
-      · simp only [List.mem_cons, List.not_mem_nil, or_false] at h; subst h; exact noND_publicLeaf w o r
-      · cases h
-  · split at h
-    · simp only [List.mem_cons, List.not_mem_nil, or_false] at h; subst h; exact noND_usersetsExpr w o r restrs
-    · cases h
+    · obtain ⟨_, rfl⟩ := mem_ite_single h; exact noND_directLeaf w o r
+    · obtain ⟨_, rfl⟩ := mem_ite_single h; exact noND_publicLeaf w o r
+  · obtain ⟨_, rfl⟩ := mem_ite_single h; exact noND_usersetsExpr w o r restrs
 
 theorem noND_ttuExpr (w : World) (o ts cr : String) : NoND rank (ttuExpr w o ts cr) := by
   unfold ttuExpr
@@ -165,34 +162,29 @@ theorem noND_ttuExpr (w : World) (o ts cr : String) : NoND rank (ttuExpr w o ts 
 /-! ### ranked -/
 
 mutual
-theorem nd_rewrite (w : World) (o r : String) (restrs : List Restr) (K : Nat) (hrank : ∀ r', rank (o, r') < K ∨ True) :
+theorem nd_rewrite (w : World) (o r : String) (restrs : List Restr) (K : Nat) :
     ∀ rw, (∀ r' ∈ computeds rw, rank (o, r') < K) → NDBelow rank K (rewriteExpr w o r restrs rw)
   | .this, _ => by rw [rewriteExpr]; exact (noND_directExpr w o r restrs).mono (Nat.zero_le _)
   | .computed r', h => by rw [rewriteExpr]; exact .nodeN _ (h r' (by simp [computeds]))
   | .ttu ts cr, _ => by rw [rewriteExpr]; exact (noND_ttuExpr w o ts cr).mono (Nat.zero_le _)
   | .union cs, h => by
       rw [rewriteExpr]
-      refine .or _ ?_
-      intro e he
-      obtain ⟨c, hc, rfl⟩ := List.mem_map.mp he
-      exact nd_rewriteL w o r restrs K hrank cs (by simpa [computeds] using h) c hc
+      exact .or _ (nd_rewriteL w o r restrs K cs (by simpa [computeds] using h))
   | .inter cs, h => by
       rw [rewriteExpr]
-      refine .and _ ?_
-      intro e he
-      obtain ⟨c, hc, rfl⟩ := List.mem_map.mp he
-      exact nd_rewriteL w o r restrs K hrank cs (by simpa [computeds] using h) c hc
+      exact .and _ (nd_rewriteL w o r restrs K cs (by simpa [computeds] using h))
   | .diff b s, h => by
       rw [rewriteExpr]
-      exact .diff _ _ (nd_rewrite w o r restrs K hrank b (fun r' hr => h r' (by simp [computeds, hr])))
-        (nd_rewrite w o r restrs K hrank s (fun r' hr => h r' (by simp [computeds, hr])))
-theorem nd_rewriteL (w : World) (o r : String) (restrs : List Restr) (K : Nat) (hrank : ∀ r', rank (o, r') < K ∨ True) :
-    ∀ cs, (∀ r' ∈ computedsL cs, rank (o, r') < K) → ∀ c ∈ cs, NDBelow rank K (rewriteExpr w o r restrs c)
-  | [], _, c, hc => by cases hc
-  | c0 :: cs, h, c, hc => by
-      rcases List.mem_cons.mp hc with rfl | hc'
-      · exact nd_rewrite w o r restrs K hrank c (fun r' hr => h r' (by simp [computedsL, hr]))
-      · exact nd_rewriteL w o r restrs K hrank cs (fun r' hr => h r' (by simp [computedsL, hr])) c hc'
+      exact .diff _ _ (nd_rewrite w o r restrs K b (fun r' hr => h r' (by simp [computeds, hr])))
+        (nd_rewrite w o r restrs K s (fun r' hr => h r' (by simp [computeds, hr])))
+theorem nd_rewriteL (w : World) (o r : String) (restrs : List Restr) (K : Nat) :
+    ∀ cs, (∀ r' ∈ computedsL cs, rank (o, r') < K) → ∀ e ∈ cs.map (rewriteExpr w o r restrs), NDBelow rank K e
+  | [], _, e, he => by cases he
+  | c0 :: cs, h, e, he => by
+      rw [List.map_cons] at he
+      rcases List.mem_cons.mp he with rfl | he'
+      · exact nd_rewrite w o r restrs K c0 (fun r' hr => h r' (by simp [computedsL, hr]))
+      · exact nd_rewriteL w o r restrs K cs (fun r' hr => h r' (by simp [computedsL, hr])) e he'
 end
 
 theorem findRel_mem (m : Model) (typ rel : String) (rd : RelDef) (h : m.findRel typ rel = some rd) :
@@ -226,7 +218,7 @@ theorem ranked_sysOf (w : World) (rk : String → String → Nat) (R : Nat) (hok
         · obtain ⟨t, ht, hname, hrd, hrel⟩ := findRel_mem _ _ _ _ hfind
           simp only [rankOK, List.all_eq_true, Bool.and_eq_true, decide_eq_true_eq] at hok
           obtain ⟨hle, hlt⟩ := hok t ht rd hrd
-          apply nd_rewrite w o r rd.restrs _ (fun _ => Or.inr trivial)
+          apply nd_rewrite w o r rd.restrs _
           intro r' hr'
           have := hlt r' hr'
           simp only [nodeRank]
@@ -311,22 +303,15 @@ theorem height_publicLeaf (w : World) (o r : String) : height (publicLeaf w o r)
 
 theorem height_directExpr (w : World) (o r : String) (restrs : List Restr) : height (directExpr w o r restrs) ≤ 5 := by
   unfold directExpr
-  simp only
   refine height_or_le _ 4 ?_
   intro e he
   rcases List.mem_append.mp he with h | h
   · rcases List.mem_append.mp h with h | h
-    · split at h
-      · simp only [List.mem_cons, List.not_mem_nil, or_false] at h; subst h
-        exact Nat.le_trans (height_directLeaf w o r) (by decide)
-      · cases h
-    · split at h
-      · simp only [List.mem_cons, List.not_mem_nil, or_false] at h; subst h
-        exact Nat.le_trans (height_publicLeaf w o r) (by decide)
-      · cases h
-  · split at h
-    · simp only [List.mem_cons, List.not_mem_nil, or_false] at h; subst h; exact height_usersetsExpr w o r restrs
-    · cases h
+    · obtain ⟨_, rfl⟩ := mem_ite_single h
+      exact Nat.le_trans (height_directLeaf w o r) (by decide)
+    · obtain ⟨_, rfl⟩ := mem_ite_single h
+      exact Nat.le_trans (height_publicLeaf w o r) (by decide)
+  · obtain ⟨_, rfl⟩ := mem_ite_single h; exact height_usersetsExpr w o r restrs
 
 theorem height_ttuExpr (w : World) (o ts cr : String) : height (ttuExpr w o ts cr) ≤ 3 := by
   unfold ttuExpr
@@ -356,35 +341,35 @@ theorem height_rewrite (w : World) (o r : String) (restrs : List Restr) :
       exact Nat.le_trans (height_ttuExpr w o ts cr) (by simp [rwHeight])
   | .union cs => by
       rw [rewriteExpr]
-      have := height_or_le (cs.map (rewriteExpr w o r restrs)) (rwHeightL cs + 4) (by
-        intro e he
-        obtain ⟨c, hc, rfl⟩ := List.mem_map.mp he
-        exact Nat.le_trans (height_rewriteL w o r restrs cs c hc) (Nat.add_le_add_right (rwHeight_le_rwHeightL hc) 4))
+      have := height_or_le (cs.map (rewriteExpr w o r restrs)) (rwHeightL cs + 4) (height_rewriteL w o r restrs cs)
       simp only [rwHeight]; omega
   | .inter cs => by
       rw [rewriteExpr]
-      have := height_and_le (cs.map (rewriteExpr w o r restrs)) (rwHeightL cs + 4) (by
-        intro e he
-        obtain ⟨c, hc, rfl⟩ := List.mem_map.mp he
-        exact Nat.le_trans (height_rewriteL w o r restrs cs c hc) (Nat.add_le_add_right (rwHeight_le_rwHeightL hc) 4))
+      have := height_and_le (cs.map (rewriteExpr w o r restrs)) (rwHeightL cs + 4) (height_rewriteL w o r restrs cs)
       simp only [rwHeight]; omega
   | .diff b s => by
       rw [rewriteExpr]
       have hb := height_rewrite w o r restrs b
       have hs := height_rewrite w o r restrs s
       simp only [height, rwHeight]
-      have := Nat.le_max_left (rwHeight b) (rwHeight s)
-      have := Nat.le_max_right (rwHeight b) (rwHeight s)
+      have h1 := Nat.le_max_left (rwHeight b) (rwHeight s)
+      have h2 := Nat.le_max_right (rwHeight b) (rwHeight s)
       have : max (height (rewriteExpr w o r restrs b)) (height (rewriteExpr w o r restrs s)) ≤ max (rwHeight b) (rwHeight s) + 4 :=
         Nat.max_le.mpr ⟨by omega, by omega⟩
       omega
 theorem height_rewriteL (w : World) (o r : String) (restrs : List Restr) :
-    ∀ cs, ∀ c ∈ cs, height (rewriteExpr w o r restrs c) ≤ rwHeight c + 4
-  | [], c, hc => by cases hc
-  | c0 :: cs, c, hc => by
-      rcases List.mem_cons.mp hc with rfl | hc'
-      · exact height_rewrite w o r restrs c
-      · exact height_rewriteL w o r restrs cs c hc'
+    ∀ cs, ∀ e ∈ cs.map (rewriteExpr w o r restrs), height e ≤ rwHeightL cs + 4
+  | [], e, he => by cases he
+  | c0 :: cs, e, he => by
+      rw [List.map_cons] at he
+      simp only [rwHeightL]
+      rcases List.mem_cons.mp he with rfl | he'
+      · have := height_rewrite w o r restrs c0
+        have := Nat.le_max_left (rwHeight c0) (rwHeightL cs)
+        omega
+      · have := height_rewriteL w o r restrs cs e he'
+        have := Nat.le_max_right (rwHeight c0) (rwHeightL cs)
+        omega
 end
 
 theorem rwHeight_le_max (m : Model) (t : TypeDef) (rd : RelDef) (ht : t ∈ m.types) (hrd : rd ∈ t.rels) :
